@@ -55,6 +55,13 @@ def handleC09 : List String → Verdict
         tags := [origin, "prt", if rows.all (·.1 == 2) then "outside-fragment" else if rows.all (·.1 != 2) then "all-in-fragment" else "some-in-fragment"],
         sig := "prt" }
     | _, _, _ => .badOp
+  | ["inplace", wantH, gotH] =>
+    match hexField wantH, hexField gotH with
+    | some want, some got =>
+      { predfail := if want == got then none else
+          some s!"after `templ fmt <file>` the file does not hold the formatted text: {got.length} bytes on disk, the formatted text has {want.length}",
+        nontrivial := true, tags := ["inplace"], sig := "inplace" }
+    | _, _ => .badOp
   | _ => .badOp
 
 def wsMarker : Bytes := Bytes.ofString "templruntime.WriteString(templ_7745c5c3_Buffer, "
@@ -132,14 +139,16 @@ def handleC08 : List String → Verdict
       let spacedRows := (List.zip t0 t1).map fun p =>
         Printer.nodesInFragment p.1 && AstParse.nodesExprs p.1 == AstParse.nodesExprs p.2 && Reparse.wfNodes p.1 && Spaced.body p.1
       let leftAlthoughSpaced := (List.zip spacedRows same).findIdx? fun r => r.1 && !r.2
-      { mismatch := match broken with
-          | some i => some s!"template #{i}: original and formatted tree are in the same layout class, but the real generator emits different code for them"
+      { predfail := broken.map fun i =>
+          s!"template #{i}: the formatted template is in the same layout class as the original (nothing but layout differs), yet the generator emits different code for the two: formatting changed the program",
+        mismatch := match broken with
+          | some _ => none
           | none => leftAlthoughSpaced.map fun i => s!"template #{i}: in the printer fragment, parser-well-formed and spaced, yet the real formatter moved it out of its layout class (C08_fragment_class_kept's model disagrees with the implementation)",
         nontrivial := rows.any (·.1),
         tags := [origin, "cls"] ++ (if rows.all (·.1) then ["class-kept"] else ["class-left"]) ++
                 (if spacedRows.any id then ["has-spaced-fragment-template"] else []) ++
                 (if rows.any (fun r => !r.1 && r.2) then ["class-left-but-same-code"] else []),
-        sig := "cls" }
+        sig := if broken.isSome then "cls;same-class-different-code" else "cls" }
     | _, _ => .badOp
   | _ => .badOp
 
